@@ -3,6 +3,7 @@
 package run
 
 import (
+	"syscall"
 	"fmt"
 	"os"
 	"path/filepath"
@@ -133,6 +134,13 @@ func Materialise(d Doc) (string, error) {
 		if strings.HasSuffix(name, "@symlink") { // symbolic link: content is the target
 			_ = os.Remove(strings.TrimSuffix(p, "@symlink"))
 			if err := os.Symlink(string(content), strings.TrimSuffix(p, "@symlink")); err != nil {
+				return dir, err
+			}
+			continue
+		}
+		if strings.HasSuffix(name, "@fifo") { // named pipe (nobody ever writes to it)
+			_ = os.Remove(strings.TrimSuffix(p, "@fifo"))
+			if err := syscall.Mkfifo(strings.TrimSuffix(p, "@fifo"), 0o644); err != nil {
 				return dir, err
 			}
 			continue
